@@ -172,6 +172,18 @@ class RefDjango:
     def clear(self):
         self.d.clear()
 
+    def evict(self, tag):
+        gone = [fk for fk, it in self.d.items() if it[2] is not None and type(it[2]) is type(tag) and it[2] == tag]
+        for fk in gone:
+            del self.d[fk]
+        return len(gone)
+
+    def expire(self):
+        gone = [fk for fk, it in self.d.items() if it[1] is not None and it[1] < self.now]
+        for fk in gone:
+            del self.d[fk]
+        return len(gone)
+
 
 def history(dc, sc, res, rng, params, label):
     from diskcache import DjangoCache
@@ -209,7 +221,7 @@ def history(dc, sc, res, rng, params, label):
             vkw = {} if ver is None else {'version': ver}
             op = gen.pick(rng, ['add', 'get', 'get', 'set', 'set', 'touch', 'delete', 'incr', 'decr', 'has_key', 'get_many',
                                 'set_many', 'delete_many', 'get_or_set', 'get_or_set_callable', 'incr_version',
-                                'decr_version', 'pop', 'contains', 'clear'])
+                                'decr_version', 'pop', 'contains', 'clear', 'evict', 'expire'])
             numeric = isinstance(k, str) and k.startswith('n')
             val = rng.randrange(100) if numeric else gen.pick(rng, ['v%d' % step, 'L' * 100, ('t', step), None, 0])
             ref.now = clock.now_peek()
@@ -266,6 +278,24 @@ def history(dc, sc, res, rng, params, label):
                 flags = {f: True for f in ('expire_time', 'tag') if rng.random() < 0.3}
                 got, exp = call(lambda: dj.pop(k, 'DEF', **flags, **vkw)), ref.pop(k, 'DEF', ver, **flags)
                 res.count('lookups_with_expire_time_or_tag', 1 if flags else 0)
+            elif op in ('evict', 'expire'):
+                # counts: expired items may already have been culled by earlier writes, so the number removed is at most
+                # what the reference (which never culls) removes; live tagged items are all counted
+                if op == 'evict':
+                    tg = gen.pick(rng, ['blue', 't2', 0, 'nobody'])
+                    live = sum(1 for fk, it in ref.d.items() if ref.live(fk) is not None and it[2] is not None
+                               and type(it[2]) is type(tg) and it[2] == tg)
+                    got, most = call(lambda: dj.evict(tg)), ref.evict(tg)
+                    res.count('evictions_by_tag')
+                else:
+                    live = 0
+                    got, most = call(lambda: dj.expire()), ref.expire()
+                res.count('evaluations')
+                if got[0] != 'ok' or type(got[1]) is not int or not (live <= got[1] <= most):
+                    return res.violation('%s removed %r items, expected between %d and %d' % (op, got, live, most),
+                                         {'label': label, 'params': params, 'history_tail': hist[-20:]})
+                hist.append((op, got))
+                continue
             else:
                 if rng.random() < 0.8:
                     continue
